@@ -668,6 +668,41 @@ impl<H: Hal, const SIZE: usize> VirtQueue<H, SIZE> {
     }
 }
 
+/// The same hooks for the build without the `alloc` feature (no `Vec`: the private state is read field by field).
+#[cfg(all(virtio_drivers_verif, not(feature = "alloc")))]
+impl<H: Hal, const SIZE: usize> VirtQueue<H, SIZE> {
+    /// `(num_used, free_head, avail_idx, last_used_idx)`.
+    pub fn verif_scalars(&self) -> (u16, u16, u16, u16) {
+        (
+            self.num_used,
+            self.free_head,
+            self.avail_idx,
+            self.last_used_idx,
+        )
+    }
+
+    /// Entry `i` of the shadow descriptor table as `(addr, len, flags, next)`.
+    pub fn verif_shadow_desc(&self, i: usize) -> (u64, u32, u16, u16) {
+        let d = &self.desc_shadow[i];
+        (d.addr, d.len, d.flags.bits(), d.next)
+    }
+
+    /// Starts the free-running 16-bit indices at `start` instead of 0 (see the `alloc` build's hook of the
+    /// same name). Must be called on a queue with nothing outstanding.
+    pub fn verif_set_indices(&mut self, start: u16) {
+        assert_eq!(self.num_used, 0);
+        self.avail_idx = start;
+        self.last_used_idx = start;
+        // SAFETY: `self.avail` is properly aligned, dereferenceable and initialised.
+        unsafe {
+            (*self.avail.as_ptr()).idx.store(start, Ordering::Release);
+            (*self.avail.as_ptr())
+                .used_event
+                .store(start, Ordering::Release);
+        }
+    }
+}
+
 /// `queue_part_sizes`, for direct comparison with its formal model.
 #[cfg(virtio_drivers_verif)]
 pub fn verif_queue_part_sizes(queue_size: u16) -> (usize, usize, usize) {
